@@ -65,5 +65,61 @@ func h11w() {
 	verifAssert(c.visits == want, "every-node-visited-exactly-once")
 	verifAssert(c.scalars == 4+2+2, "scalar-constants-visited")
 	verifAssert(c.badPar == 0, "true-parent")
+
+	// a visitor per subtree (as go/ast-style visitors do), optionally pruning
+	// one subtree: every node must be handed the visitor its parent's Visit
+	// returned, and pruning one subtree must not affect its later siblings
+	c2 := &zzCounter{prog: prog}
+	prune := verifChoice(3)
+	Walk(&zzScoped{c: c2, depth: 0, kind: zzKind(nil), prune: prune}, prog)
+	want2 := want
+	if prune != 0 {
+		want2 = want - 2 // the two items of the list / the type and value of constant "i"
+	}
+	verifObserveInt("scoped-visits", int64(c2.visits))
+	verifAssert(c2.visits == want2, "pruning-skips-exactly-the-subtree")
+	verifAssert(c2.badPar == 0, "visitor-returned-by-the-parent")
 	verifReached("end")
+}
+
+func zzKind(n Node) int {
+	switch n.(type) {
+	case nil:
+		return 0
+	case *Program:
+		return 1
+	case *Constant:
+		return 2
+	case BaseType:
+		return 3
+	case ConstantList:
+		return 4
+	case ConstantMap:
+		return 5
+	case ConstantMapItem:
+		return 6
+	}
+	return 7
+}
+
+// zzScoped is the visitor returned for the children of one node.
+type zzScoped struct {
+	c     *zzCounter
+	depth int
+	kind  int // kind of the node whose Visit returned this visitor
+	prune int
+}
+
+func (v *zzScoped) Visit(w Walker, n Node) Visitor {
+	v.c.visits++
+	if len(w.Ancestors()) != v.depth || zzKind(w.Parent()) != v.kind {
+		v.c.badPar++
+	}
+	if _, isList := n.(ConstantList); isList && v.prune == 1 {
+		return nil
+	}
+	if k, isConst := n.(*Constant); isConst && v.prune == 2 && k.Name == "i" {
+		return nil
+	}
+	return &zzScoped{c: v.c, depth: v.depth + 1, kind: zzKind(n), prune: v.prune}
 }
